@@ -188,18 +188,25 @@ Proof.
 Qed.
 Lemma has_forin_post lo a k : has a k -> has (forin_post lo a) k.
 Proof. intros H. unfold forin_post. apply has_set_end, has_mark. exact H. Qed.
-Lemma has_dowhile_tail r p c x k : has x k -> has (dowhile_tail r p c x) k.
-Proof. intros H. unfold dowhile_tail. apply has_visit_cond. destruct r as [e|]; [destruct (is_forced e); [apply has_mark|]|]; exact H. Qed.
+Lemma has_dowhile_tail prev r p c x k : has x k -> has (dowhile_tail fx prev r p c x) k.
+Proof.
+  intros H. unfold dowhile_tail, dowhile_test.
+  assert (H' : has (match r with Some e => if is_forced e then mark_as_end p e x else x | None => x end) k)
+    by (destruct r as [e|]; [destruct (is_forced e); [apply has_mark|]|]; exact H).
+  destruct (fixF fx); [apply has_set_end, has_visit_cond, has_set_end | apply has_visit_cond]; exact H'.
+Qed.
 
 Lemma grows_while c lo op : grows op -> grows (visit_while fx c lo op).
 Proof.
-  intros H x k Hk. unfold visit_while. apply has_visit_cond. apply grows_with_child; [|exact Hk].
-  intros y k' Hk'. apply has_while_post. apply H. exact Hk'.
+  intros H x k Hk. unfold visit_while.
+  assert (G : grows (fun a => while_post c lo (op a))) by (intros y k' Hk'; apply has_while_post; apply H; exact Hk').
+  destruct (fixF fx); [apply grows_with_child; [exact G | apply has_visit_cond; exact Hk] | apply has_visit_cond; apply grows_with_child; [exact G | exact Hk]].
 Qed.
 Lemma covers_while c lo op K : covers op K -> covers (visit_while fx c lo op) K.
 Proof.
-  intros H x k Hk. unfold visit_while. apply has_visit_cond.
-  apply (covers_with_child KLoop lo _ K); [|exact Hk]. intros y k' Hk'. apply has_while_post. apply H. exact Hk'.
+  intros H x k Hk. unfold visit_while.
+  assert (C : covers (fun a => while_post c lo (op a)) K) by (intros y k' Hk'; apply has_while_post; apply H; exact Hk').
+  destruct (fixF fx); [|apply has_visit_cond]; apply (covers_with_child KLoop lo _ K C); exact Hk.
 Qed.
 Lemma grows_do_while p c lo op : grows op -> grows (visit_do_while fx p c lo op).
 Proof.
@@ -558,7 +565,7 @@ Proof. split; [apply (analyzer_total current p) | apply getter_return_never_pani
 Definition wE_getter : program :=
   {| p_getter := false; p_start := 0; p_pb := 13;
      p_body := SCons (SForHead 15 true 32 40 SNil (SEmpty 52)) SNil |}.
-Definition before_E := {| fixA := true; fixB := true; fixC := false; fixD := true; fixE := false |}.
+Definition before_E := {| fixA := true; fixB := true; fixC := false; fixD := true; fixE := false; fixF := true |}.
 
 Theorem coverage_refuted_before_fix_E :
   wf wE_getter /\ In 40 (qkeys_l (p_body wE_getter)) /\ iget (analyze before_E wE_getter) 40 = None /\
